@@ -93,6 +93,15 @@ class C03(Spec):
             for x in seq: c += x.split("\n")
             c += ["C 1 set a fin", "C 1 get-safe a"]
             cases.append(c)
+        # a SLOW subscriber: session 3 stops reading (HOLD) while more than 100 lines are pushed to it — the queue of a connection holds 100
+        # lines plus one per sender, and every push is made on a clone of the stored sender, so nothing may be lost: at RELEASE the subscriber
+        # has every notification, in order; the other subscriber (4) reads all along
+        tails = [["C 1 remove a", "C 1 set a again", "C 1 remove a"], ["C 1 remove a", "C 1 remove a"], ["C 1 increment a", "C 2 set-safe a 0 stale", "C 1 remove a", "C 1 increment a"],
+                 ["C 1 replicate-remove t a", "C 1 replicate t a -1 rv", "C 1 replicate-remove t a"]]
+        for n_w in ((52, 70) if tier == "quick" else (49, 50, 51, 52, 60, 100, 150)):
+            for tl in tails:
+                c = list(SETUP) + ["C 3 watch a", "C 4 watch a", "HOLD 3"] + [f"C {1 + i % 2} set a w{i}" for i in range(n_w)] + tl + ["RELEASE 3", "C 1 set a fin", "C 1 get-safe a"]
+                cases.append(c)
         rng = core.XorShift(seed)
         for _ in range(1500 if tier == "quick" else 30000):
             c = list(SETUP)
@@ -108,6 +117,7 @@ class C03(Spec):
     def oracle(self, case, impl):
         fails = []
         subs = {3: set(), 4: set()}            # the oracle's own subscription table
+        held = set(); owed = {3: [], 4: []}   # a subscriber on HOLD is owed its notifications until RELEASE
         last = {3: {}, 4: {}}                  # last changed-version payload per key
         prev = {}
         for (inp, rest, dump) in core.parse_steps(impl):
@@ -143,6 +153,19 @@ class C03(Spec):
                     elif ok and cmd in ("remove", "replicate-remove"):
                         for s in subs:
                             if key in subs[s]: expect[s].append(("removed", key, ""))
+            if p[0] == "HOLD": held.add(int(p[1]))
+            for s in (3, 4):
+                if s in held and not (p[0] == "RELEASE" and int(p[1]) == s):
+                    owed[s] += [(k, key, None) for (k, key, _) in expect[s]]; expect[s] = []       # (the payloads are compared when they were current only)
+            if p[0] == "RELEASE":
+                s = int(p[1]); held.discard(s)
+                if s in expect: expect[s] = owed[s]; owed[s] = []
+                g = got.get(s, [])
+                if [x[:2] for x in g] != [x[:2] for x in expect.get(s, [])]:
+                    lost = len(expect.get(s, [])) - len(g)
+                    fails.append(Failure("slow-subscriber-lost-notifications" if lost > 0 else "slow-subscriber-got-other-notifications",
+                                         f"{inp}: subscriber {s} was owed {len(expect.get(s, []))} notifications, received {len(g)}; last owed {expect.get(s, [])[-3:]}, last received {g[-3:]}")); break
+                prev = cur; continue
             for s in (3, 4):
                 g = got[s]; e = expect[s]
                 if len(g) != len(e):
